@@ -1,0 +1,61 @@
+//go:build verif
+
+package proportion
+
+import (
+	"volcano.sh/volcano/pkg/scheduler/api"
+	"volcano.sh/volcano/pkg/scheduler/framework"
+)
+
+// VerifQueueRecord is a read-only deep copy of one per-queue fair-share record.
+type VerifQueueRecord struct {
+	QueueID        api.QueueID
+	Name           string
+	Weight         int32
+	Share          float64
+	Deserved       *api.Resource
+	Allocated      *api.Resource
+	Request        *api.Resource
+	Elastic        *api.Resource
+	Inqueue        *api.Resource
+	Capability     *api.Resource
+	RealCapability *api.Resource
+	Guarantee      *api.Resource
+}
+
+// VerifSnapshot is a deep copy of the plugin state built by OnSessionOpen.
+type VerifSnapshot struct {
+	TotalResource  *api.Resource
+	TotalGuarantee *api.Resource
+	Queues         map[api.QueueID]VerifQueueRecord
+}
+
+func verifClone(r *api.Resource) *api.Resource {
+	if r == nil {
+		return nil
+	}
+	return r.Clone()
+}
+
+// VerifNew builds the plugin exactly as New does and returns, next to it, a
+// function that copies the plugin's current per-queue records.
+func VerifNew(arguments framework.Arguments) (framework.Plugin, func() VerifSnapshot) {
+	p := New(arguments)
+	pp := p.(*proportionPlugin)
+	return p, func() VerifSnapshot {
+		s := VerifSnapshot{
+			TotalResource:  verifClone(pp.totalResource),
+			TotalGuarantee: verifClone(pp.totalGuarantee),
+			Queues:         map[api.QueueID]VerifQueueRecord{},
+		}
+		for id, a := range pp.queueOpts {
+			s.Queues[id] = VerifQueueRecord{
+				QueueID: a.queueID, Name: a.name, Weight: a.weight, Share: a.share,
+				Deserved: verifClone(a.deserved), Allocated: verifClone(a.allocated), Request: verifClone(a.request),
+				Elastic: verifClone(a.elastic), Inqueue: verifClone(a.inqueue), Capability: verifClone(a.capability),
+				RealCapability: verifClone(a.realCapability), Guarantee: verifClone(a.guarantee),
+			}
+		}
+		return s
+	}
+}
